@@ -119,14 +119,14 @@ def coq_project_files() -> list[str]:
     return files
 
 
-def coq_make(timeout=3000, jobs=8):
-    """Full .vo build of the committed development (never -vos)."""
+def coq_make(timeout=3000, jobs=8, targets=None):
+    """Full .vo build (never -vos) of the given targets (default: everything)."""
     if not (COQ / "Makefile").exists() or \
             (COQ / "Makefile").stat().st_mtime < (COQ / "_CoqProject").stat().st_mtime:
         rc, out = sh(["coq_makefile", "-f", "_CoqProject", "-o", "Makefile"], cwd=COQ, timeout=120)
         if rc != 0:
             return rc, out
-    return sh(["make", "-j", str(jobs)], cwd=COQ, timeout=timeout)
+    return sh(["make", "-j", str(jobs), *(targets or [])], cwd=COQ, timeout=timeout)
 
 
 def coqc(path: Path, timeout=900, cwd=None):
@@ -213,7 +213,8 @@ def coq_eval_lines(preamble: str, expr: str, timeout=900, keep: Path | None = No
             f"\nDefinition sv_result : String.string := ({expr}).\n"
             "From Coq Require Import String.\nOpen Scope string_scope.\n"
             f'Redirect "{outbase}" Eval vm_compute in sv_result.\n')
-        rc, out = sh(["coqc", *COQ_FLAGS, str(src)], timeout=timeout, cwd=d)
+        rc, out = sh(["bash", "-c", 'ulimit -s unlimited 2>/dev/null || ulimit -s 1000000; exec coqc "$@"', "coqc",
+                      *COQ_FLAGS, str(src)], timeout=timeout, cwd=d)
         if keep is not None:
             keep.parent.mkdir(parents=True, exist_ok=True)
             shutil.copy(src, keep)
@@ -331,6 +332,8 @@ class Run:
         self.proof_broken: list[str] = []      # names of obligations / correspondences that no longer check
         self.known, self.fixed = load_known(prop)
         self.distinct = set()
+        self.max_replays = 5
+        self.suppressed = 0
 
     # -- bookkeeping ------------------------------------------------------
     def log(self, msg: str):
@@ -363,8 +366,10 @@ class Run:
         bad = audit()
         self.obligation("audit: no Admitted/admit/Axiom/Parameter/Conjecture/guard switches", not bad,
                         "; ".join(bad[:5]))
-        rc, out = coq_make()
-        self.obligation("make (full .vo build of the development)", rc == 0, out[-1500:] if rc else "")
+        targets = [str(pf.relative_to(COQ))[:-2] + ".vo" for pf in prop_files] + list(extra_targets or [])
+        rc, out = coq_make(targets=targets)
+        self.obligation("make (full .vo build of this property's model, lemma and statement files)", rc == 0,
+                        out[-1500:] if rc else "")
         if rc != 0:
             return False
         ok_all = True
@@ -404,6 +409,9 @@ class Run:
                 hit = self.known_hits.setdefault(selector, {"k": k, "n": 0, "example": replay})
                 hit["n"] += 1
                 return False
+        if kind == "failing-input" and sum(v["kind"] == kind for v in self.violations) >= self.max_replays:
+            self.suppressed += 1        # same kind of failure again: counted, not written out
+            return True
         replay = dict(replay)
         replay.update({"property": self.prop, "kind": kind, "seed": self.seed, "tier": self.tier})
         REPLAYS.mkdir(exist_ok=True)
@@ -436,10 +444,11 @@ class Run:
         self.coverage["known_findings_reproduced"] = [
             {"selector": s, "id": h["k"].get("id"), "cases": h["n"]} for s, h in self.known_hits.items()]
         self.coverage["notes"] = self.notes
+        self.coverage["further_failing_inputs_not_written"] = self.suppressed
         ev = {
             "property_id": self.prop, "tier": self.tier, "seed": self.seed, "level": level,
             "coverage": self.coverage, "assumptions": self.assumptions,
-            "wall_s": round(time.time() - self.t0, 2), "violations": len(self.violations),
+            "wall_s": round(time.time() - self.t0, 2), "violations": len(self.violations) + self.suppressed,
         }
         EVIDENCE.mkdir(exist_ok=True)
         (EVIDENCE / f"{self.prop}.json").write_text(json.dumps(ev, indent=1, default=str) + "\n")
